@@ -21,6 +21,10 @@ EDGES = {
 
 
 def edges_for(B, kind="uneq"):
+    if kind.endswith("~"):  # the same edges with the last one moved by 2e-6 (relative): another binning
+        e = list(EDGES[(kind[:-1], B)])
+        e[-1] = e[-1] * (1.0 + 2e-6)
+        return e
     return list(EDGES[(kind, B)])
 
 
